@@ -25,6 +25,10 @@ def handleLine (line : String) : String :=
   | "sm" :: rest => handleSM rest
   | "gen" :: rest => handleGen rest
   | "mock" :: rest => handleMock rest
+  -- the real state machine against the in-process mock: units against the state-machine model, the
+  -- exchanges against the mock model
+  | "smmock" :: "sm" :: rest => handleSM rest
+  | "smmock" :: "mock" :: rest => handleMock rest
   -- the implementation compared with itself under storage failures: the model's answer is what
   -- `storage_failures_invisible_history` (Props/C14) proves, for every history
   | "smfault" :: _ => "same"
